@@ -184,7 +184,7 @@ def run_stp(cfg, choose):
                 'alive': len(alive), 'deadlock': bool(sched.deadlock),
                 'nback': nev})
     if sched.diverged:
-        rec['diverged'] = sched.diverged
+        rec['diverged'] = sched.diverged + ' ' + ' | '.join(sched.thread_errors)
     return rec, sched
 
 
